@@ -68,6 +68,14 @@ def splitN {α : Type} (H : Nat) : Nat → List α → List (List α)
   | 0, _ => []
   | B + 1, xs => xs.take H :: splitN H B (xs.drop H)
 
+/-- `GhostBatchNorm1d.forward` around an arbitrary batch function `f` (`self.bn`): `chunk`, apply, `cat` -/
+def ghostBN {R : Type} (vbs : Nat) (f : Mat R → Mat R) (X : Mat R) : Mat R :=
+  if X.length > 0 then
+    let numChunks := (X.length + vbs - 1) / vbs          -- math.ceil(len(x) / vbs)
+    let size := (X.length + numChunks - 1) / numChunks   -- torch.chunk: ceil(len / chunks)
+    ((chunksOf size X.length X).map f).flatten
+  else f X
+
 namespace TOps
 variable {R : Type} (o : TOps R)
 
@@ -208,14 +216,6 @@ def bnTrain (N : BNorm R) (X : Mat R) : Mat R :=
   let vars := (List.range c).map fun l => o.variance (o.colOf l X)
   X.map fun x =>
     o.vadd (o.vmul (List.zipWith (fun p x => o.normalizeWith p.1 p.2 N.eps x) (List.zip mus vars) x) N.w) N.b
-
-/-- `GhostBatchNorm1d.forward` around an arbitrary batch function `f` (`self.bn`): `chunk`, apply, `cat` -/
-def ghostBN (vbs : Nat) (f : Mat R → Mat R) (X : Mat R) : Mat R :=
-  if X.length > 0 then
-    let numChunks := (X.length + vbs - 1) / vbs          -- math.ceil(len(x) / vbs)
-    let size := (X.length + numChunks - 1) / numChunks   -- torch.chunk: ceil(len / chunks)
-    ((chunksOf size X.length X).map f).flatten
-  else f X
 
 /-- `nn.GLU` on the last axis: `a * sigmoid(b)` with `a, b = x.chunk(2, -1)` -/
 def gluV (x : Vec R) : Vec R :=
